@@ -210,5 +210,6 @@ func runC09(r *Report) {
 		cat := hybridCategory(r, prefix)
 		r.Ob("R-C09-4", mk.Pos(), cat == "shared", fmt.Sprintf("key prefix %q classifies as %q in the hybrid storage configuration (want shared: visible to every node, never persisted)", prefix, cat), "makeKey", "prefix-shared")
 	}
-	r.Floor("R-C09-4", 5, "key agreement obligations")
+	checkSharedFamilyTiers(r, "R-C09-4")
+	r.Floor("R-C09-4", 9, "key agreement obligations")
 }
